@@ -298,6 +298,10 @@ func c20Drive(args []string) int {
  "transform_declarations": {"FINAL_OUTPUT": {"xpath": "/*", "object": {"id": {"xpath": "id"},
    "a_ref": {"xpath_dynamic": {"custom_func": {"name": "javascript", "args": [{"const": "if (k == 'throw') { throw 'boom' }; k == 'nan' ? 0/0 : (k == 'undef' ? undefined : k)"}, {"const": "k"}, {"xpath": "k"}]}}},
    "b_val": {"custom_func": {"name": "javascript", "args": [{"const": "if (k == 'throw') { throw 'boom' }; k == 'nan' ? 0/0 : (k == 'undef' ? undefined : k)"}, {"const": "k"}, {"xpath": "k"}]}}}}}}`
+	ieTwinSchema := `{"parser_settings": {"version": "omni.2.1", "file_format_type": "json"},
+ "transform_declarations": {"FINAL_OUTPUT": {"xpath": "/*", "object": {"id": {"xpath": "id"},
+   "a_lenient": {"custom_func": {"name": "javascript", "args": [{"const": "if (k == 'throw') { throw 'boom' }; k == 'nan' ? 0/0 : (k == 'undef' ? undefined : k)"}, {"const": "k"}, {"xpath": "k"}], "ignore_error": true}},
+   "b_strict": {"custom_func": {"name": "javascript", "args": [{"const": "if (k == 'throw') { throw 'boom' }; k == 'nan' ? 0/0 : (k == 'undef' ? undefined : k)"}, {"const": "k"}, {"xpath": "k"}]}}}}}}`
 	twinIn := `[{"id": "r1", "k": "v", "v": "v1"}, {"id": "r2", "k": "throw"}, {"id": "r3", "k": "nan"}, {"id": "r4", "k": "undef"}, {"id": "r5", "k": "w", "w": "w5"}]`
 	ancIn := `<root><hdr>H</hdr><rec><qty>3</qty></rec><rec><qty>7.5</qty></rec><rec><qty>1</qty></rec></root>`
 	for _, d := range []struct {
@@ -310,6 +314,8 @@ func c20Drive(args []string) int {
 			`ok {"on_ancestor":{"ctx":"1/H","label":"T:1"},"on_record":"T:1"}`}},
 		{"a script that fails, first as a computed xpath (where a failure means 'no xpath') and then as a value", twinSchema, twinIn, []string{
 			`ok {"a_ref":"v1","b_val":"v","id":"r1"}`, "failed", "failed", "failed", `ok {"a_ref":"w5","b_val":"w","id":"r5"}`}},
+		{"two calls that differ only in ignore_error, the lenient one first", ieTwinSchema, twinIn, []string{
+			`ok {"a_lenient":"v","b_strict":"v","id":"r1"}`, "failed", "failed", "failed", `ok {"a_lenient":"w","b_strict":"w","id":"r5"}`}},
 		{"what a call sees", depSchema, depIn, []string{
 			`ok {"c_s":"x+","c_type":"string/undefined","p_arg":"x!","p_same":"k","p_type":"undefined/undefined/undefined"}`,
 			`ok {"c_s":"yy+","c_type":"string/undefined","p_arg":"yy!","p_same":"k","p_type":"undefined/undefined/undefined"}`,
